@@ -19,11 +19,11 @@ import (
 // c14Case: a sequence of message lengths over one connection, optionally with
 // faults and with send/receive deadlines.
 type c14Case struct {
-	N          int             `json:"n"`
-	Chunk      int             `json:"chunk"`
+	N     int `json:"n"`
+	Chunk int `json:"chunk"`
 	// PeerChunk: max chunk size configured on the receiving endpoint when it
 	// differs from the sender's (0: same as Chunk, -1: none).
-	PeerChunk int `json:"peer_chunk,omitempty"`
+	PeerChunk  int             `json:"peer_chunk,omitempty"`
 	Lens       []int           `json:"lens"`
 	FromSrv    bool            `json:"from_srv"`
 	FwdMs      int             `json:"fwd_ms"`
